@@ -3,6 +3,7 @@ CONSTANTS
   Dims = {1, 2, 4, 8, 16}
   RotIdx = {1, 2, 7, 12}
   StyleIdx = {1, 2, 3}
+  Recount = FALSE
   Deviations = {}
 INVARIANT TilesExactlyOnce
 INVARIANT InsideBase
